@@ -170,6 +170,8 @@ let () =
       match split_ws (String.sub l 4 (String.length l - 4)) with
       | fam :: r :: toks -> Hashtbl.replace custom (int_of_string fam, int_of_string r) (parse_act toks)
       | _ -> failwith "bad act"
+    end else if String.length l > 5 && String.sub l 0 5 = "ROFS " then begin
+      ()    (* message without raise_on_failure: only the message text differs (canonicalised on the Python side) *)
     end else if String.length l > 4 && String.sub l 0 4 = "ROF " then begin
       (* rules for which the must_if control families 4/5 raise from failure() *)
       match split_ws (String.sub l 4 (String.length l - 4)) with
